@@ -20,7 +20,7 @@ from . import core
 LEVEL = "exploration"
 RULE = ("stores populated directly with rows of a generated fixture package: 0..6 valid rows (5 functions incl. a method, a "
         "function in a module three packages deep, a generator) interleaved at drawn positions and calendar days with 0..6 stale "
-        "rows of 17 kinds (module / submodule / middle package removed, function removed, function now an int / a class / a "
+        "rows of 25 kinds (module / submodule / middle package removed, function removed, function now an int / a class / a "
         "settable property, local-scope qualname, argument / return / yield class removed, class's module or middle package "
         "removed, name now bound to a non-type, malformed generic); every single kind and every pair of kinds exhaustively around "
         "a fixed base; commands stub and apply, with and without -v, with and without a :qualname filter. Oracle: differential "
@@ -39,6 +39,8 @@ class NowClass:
 
 
 now_int = 3
+NowNone = None
+now_list = [1]
 
 
 def f(a, b=None):
@@ -151,6 +153,17 @@ class Fixture:
             "nested-class-now-non-type": (M, "g", {"x": T("typing", "List", [T(M, "now_int")])}, INT, None),
             "nested-class-now-function": (M, "f", {"a": T("typing", "Dict", [STR, T(M, "g")]), "b": NONE}, T("typing", "List", [T(M, "outer")]), None),
             "class-now-function": (M, "K.m", {"self": T(M, "K"), "a": T(M, "g")}, INT, None),
+            # dotted names whose LEADING component is still there but is no longer a class (a method's class, the outer class of
+            # a nested class): the walk fails on the next component
+            "method-of-name-now-none": (M, "NowNone.meth", {"a": INT}, INT, None),
+            "method-of-name-now-int": (M, "now_int.meth", {"a": INT}, INT, None),
+            "method-of-name-now-list": (M, "now_list.meth.deeper", {"a": INT}, INT, None),
+            "nested-class-of-name-now-none": (M, "f", {"a": T(M, "NowNone.Inner"), "b": NONE}, INT, None),
+            "nested-class-of-function": (M, "f", {"a": INT, "b": NONE}, T(M, "g.Inner.Deeper"), None),
+            # two kinds of staleness in one row: a parameter that no longer exists AND whose class is gone / no longer a type
+            "vanished-parameter-of-removed-class": (M, "f", {"a": STR, "zzz_gone_param": gone_cls}, T("typing", "List", [INT]), None),
+            "vanished-parameter-of-non-type": (M, "g", {"zzz_gone_param": T(M, "now_int")}, STR, None),
+            "vanished-parameter-of-removed-module": (M, "gen", {"zzz_gone_param": T("fx_gone_module_xyz", "C")}, None, STR),
         }
 
     def write_db(self, rows):
